@@ -14,7 +14,12 @@
 (* the unchanged parent for a rejected operation); the state laws hold on  *)
 (* the recorded registry; the three views (raw store, gRPC queries, keeper *)
 (* iteration used by NewEVM) agree; and every probe of every candidate     *)
-(* address in every execution mode shows exactly Exposure(registry, addr). *)
+(* address in every execution mode shows exactly Exposure(registry, addr), *)
+(* whatever the call looks like: a method selector, an empty calldata with *)
+(* or without value, 1-3 bytes, top-level or through a proxy contract - a  *)
+(* registered enabled contract is always DISPATCHED (answers or fails      *)
+(* inside the precompile, keeps no value), a disabled one refuses, any     *)
+(* other address is a plain account (or go-ethereum's standard precompile).*)
 (***************************************************************************)
 EXTENDS CpcRegistry, Json
 
@@ -86,15 +91,25 @@ StateDiff(L, R) ==
 (***************************************************************************)
 Status(g, L, a) == IF a \in DOMAIN L.meta THEN Exposure(L, a) ELSE IF a \in DOMAIN g.std THEN "std" ELSE "absent"
 
-(* what the frame at address a must show for probe input i: <<class, detail>> *)
+(* probe inputs: in1 = name(), in2 = bech32 prefix view (they select a method of some contract type), e = empty calldata,
+   s1..s3 = 1-3 bytes (shorter than a selector); CpcRegistry!InputClasses *)
+NoMethodInputs == {"e", "s1", "s2", "s3"}
+
+(* what the frame at address a may show for probe input i: a set of <<class, detail>>.
+   For a registered enabled contract and an input that selects none of its methods the demand is "dispatched": the call fails
+   inside the precompile (the pinned fork reverts: fewer than 4 bytes / unknown selector), it is NOT a successful call to a plain
+   account and it is not the refusal of a disabled contract; the exact failure kind is left open. *)
+DispatchedFailure == {<<"fail", "revert">>, <<"fail", "oog">>, <<"fail", "other">>}
 HExp(g, L, a, i) ==
   LET st == Status(g, L, a) IN
-  IF st = "absent" THEN <<"empty", "">>
-  ELSE IF st = "refused" THEN <<"fail", "disabled">>
-  ELSE IF st = "std" THEN g.std[a][i]
-  ELSE LET t == L.meta[a].type IN
-       IF i = "in1" THEN (IF t \in {"erc20", "staking"} THEN <<"data", L.meta[a].name>> ELSE <<"fail", "revert">>)
-       ELSE (IF t = "bech32" THEN <<"data", g.hrp>> ELSE <<"fail", "revert">>)
+  IF st = "absent" THEN {<<"empty", "">>}                                  \* CallClass = plain-account
+  ELSE IF st = "refused" THEN {<<"fail", "disabled">>}                     \* CallClass = refused
+  ELSE IF st = "std" THEN {g.std[a][i]}                                    \* go-ethereum's own precompile, gas-aware reference
+  ELSE LET t == L.meta[a].type IN                                          \* CallClass = answers / reverts-in-precompile
+       IF i = "in1" /\ t \in {"erc20", "staking"} THEN {<<"data", L.meta[a].name>>}
+       ELSE IF i = "in2" /\ t = "bech32" THEN {<<"data", g.hrp>>}
+       ELSE IF i \in NoMethodInputs THEN DispatchedFailure
+       ELSE {<<"fail", "revert">>}
 
 Str(h) == IF h[2] = "" THEN h[1] ELSE h[1] \o ":" \o h[2]
 (* what the caller of the API sees *)
@@ -102,34 +117,66 @@ UExp(h, mode, via) ==
   IF mode = "check" THEN "admitted"
   ELSE IF mode = "estimate" THEN (IF via = "direct" /\ h[1] = "fail" THEN "fail" ELSE "ok")
   ELSE IF h[1] = "fail" THEN "fail" ELSE Str(h)
-Cell(g, L, a, i, mode, via) == LET h == HExp(g, L, a, i) IN Str(h) \o "|" \o UExp(h, mode, via)
+Cells(g, L, a, i, mode, via) == {Str(h) \o "|" \o UExp(h, mode, via) : h \in HExp(g, L, a, i)}
 
+Cols == {"d1", "d2", "x1", "e0", "e1", "r"}
+(* the sampled part of the matrix: eth_estimateGas (a binary search) only with the plain probes d1 and e0; the value probe e1
+   and the rotating probe r in deliver, simulate and eth_call only.  28 judged cells per address. *)
+Skipped(c, mode) == \/ (c \notin {"d1", "e0"} /\ mode = "estimate")
+                    \/ (c \in {"e1", "r"} /\ mode \notin {"deliver", "simulate", "eth_call"})
+InputOf(pa, c, m) == IF c \in {"d1", "x1"} THEN "in1" ELSE IF c = "d2" THEN "in2" ELSE IF c \in {"e0", "e1"} THEN "e" ELSE pa.rin[m]
+ViaOf(pa, c, m) == IF c = "x1" THEN pa.xk[m] ELSE IF c = "r" THEN pa.rvia[m] ELSE "direct"
 FullProbeBad(g, L, p) ==
-  {x \in (ToSet(g.cands) \X {"d1", "d2", "x1"} \X (1..Len(g.modes))) :
+  {x \in (ToSet(g.cands) \X Cols \X (1..Len(g.modes))) :
      \/ x[1] \notin DOMAIN p
-     \/ (IF x[2] # "d1" /\ g.modes[x[3]] = "estimate" THEN p[x[1]][x[2]][x[3]] # "skipped" ELSE   \* eth_estimateGas only with the plain probe
-         p[x[1]][x[2]][x[3]] # Cell(g, L, x[1], IF x[2] = "d2" THEN "in2" ELSE "in1", g.modes[x[3]], IF x[2] = "x1" THEN p[x[1]].xk[x[3]] ELSE "direct"))}
-LiteProbeBad(g, L, p) == {a \in ToSet(g.cands) : a \notin DOMAIN p \/ p[a] # Cell(g, L, a, "in1", "eth_call", "direct")}
+     \/ (IF Skipped(x[2], g.modes[x[3]]) THEN p[x[1]][x[2]][x[3]] # "skipped"
+         ELSE p[x[1]][x[2]][x[3]] \notin Cells(g, L, x[1], InputOf(p[x[1]], x[2], x[3]), g.modes[x[3]], ViaOf(p[x[1]], x[2], x[3])))}
+LiteProbeBad(g, L, p) == {a \in ToSet(g.cands) : a \notin DOMAIN p \/ p[a] \notin Cells(g, L, a, "in1", "eth_call", "direct")}
+(* lines without the full matrix: the top-level empty-calldata probe of every registered contract in every mode *)
+Reg0Bad(g, L, r0) ==
+  {x \in (DOMAIN L.meta) \X (1..Len(g.modes)) : x[1] \notin DOMAIN r0 \/ r0[x[1]][x[2]] \notin Cells(g, L, x[1], "e", g.modes[x[2]], "direct")}
 
-(* name of the first broken exposure law: the status the registry demands and the mode in which the call disagrees *)
+(* value: the wei an address gains during the delivered probes = the value probes that reach it and succeed there
+   (direct e1 in deliver mode; the rotating probe when it forwards value 1 through the CALL proxy); a dispatched-and-reverted or
+   refused call keeps nothing (CpcRegistry!KeepsValue) *)
+DeliverIdx(g) == CHOOSE m \in 1..Len(g.modes) : g.modes[m] = "deliver"
+Keeps(g, L, a, i) == \A h \in HExp(g, L, a, i) : h[1] # "fail"
+ExpectedGain(g, L, a, pa) ==
+  LET m == DeliverIdx(g) IN
+    (IF pa.rval[m] = 1 /\ pa.rvia[m] = "CALL" /\ Keeps(g, L, a, pa.rin[m]) THEN 1 ELSE 0)
+  + (IF a # "mod" /\ Keeps(g, L, a, "e") THEN 1 ELSE 0)     \* no value is sent to the module account (blocked bank recipient)
+BalBad(g, L, e) == {a \in ToSet(g.cands) : a \notin DOMAIN e.bal \/ e.bal[a][2] - e.bal[a][1] # ExpectedGain(g, L, a, e.probe[a])}
+
+InputTag(i) == IF i = "e" THEN "empty-calldata-" ELSE IF i \in NoMethodInputs THEN "short-calldata-" ELSE ""
+
+(* name of the first broken exposure law: the status the registry demands, the route, the input shape and the mode *)
 ProbeLaw(g, e, L) ==
   IF "noprobe" \in DOMAIN e THEN OK
   ELSE IF e.full THEN
     LET bad == FullProbeBad(g, L, e.probe) IN
-    IF bad = {} THEN OK
-    ELSE LET b == CHOOSE x \in bad : TRUE
-             dbg == PrintT(<<"PROBE-MISMATCH", b, IF b[1] \in DOMAIN e.probe THEN e.probe[b[1]][b[2]][b[3]] ELSE "missing", "expected",
-                            Cell(g, L, b[1], IF b[2] = "d2" THEN "in2" ELSE "in1", g.modes[b[3]], IF b[2] = "x1" THEN e.probe[b[1]].xk[b[3]] ELSE "direct")>>)
-         IN IF ~dbg THEN OK ELSE <<"Exposure", Status(g, L, b[1]) \o "-address-" \o (IF b[2] = "x1" THEN "via-proxy-" ELSE "") \o "in-mode-" \o g.modes[b[3]]>>
+    IF bad # {} THEN
+         LET b == CHOOSE x \in bad : TRUE
+             i == IF b[1] \in DOMAIN e.probe THEN InputOf(e.probe[b[1]], b[2], b[3]) ELSE "in1"
+             v == IF b[1] \in DOMAIN e.probe THEN ViaOf(e.probe[b[1]], b[2], b[3]) ELSE "direct"
+             dbg == PrintT(<<"PROBE-MISMATCH", b, i, v, IF b[1] \in DOMAIN e.probe THEN e.probe[b[1]][b[2]][b[3]] ELSE "missing", "expected one of",
+                            Cells(g, L, b[1], i, g.modes[b[3]], v)>>)
+         IN IF ~dbg THEN OK ELSE <<"Exposure", Status(g, L, b[1]) \o "-address-" \o (IF v # "direct" THEN "via-proxy-" ELSE "") \o InputTag(i) \o "in-mode-" \o g.modes[b[3]]>>
+    ELSE LET bb == BalBad(g, L, e) IN
+         IF bb = {} THEN OK ELSE <<"Exposure", Status(g, L, CHOOSE x \in bb : TRUE) \o "-address-balance-after-value-probes">>
   ELSE
-    LET bad == LiteProbeBad(g, L, e.probe) IN
-    IF bad = {} THEN OK ELSE <<"Exposure", Status(g, L, CHOOSE x \in bad : TRUE) \o "-address-in-mode-eth_call">>
+    LET bad == LiteProbeBad(g, L, e.probe)
+        bad0 == Reg0Bad(g, L, e.reg0) IN
+    IF bad # {} THEN <<"Exposure", Status(g, L, CHOOSE x \in bad : TRUE) \o "-address-in-mode-eth_call">>
+    ELSE IF bad0 # {} THEN LET b == CHOOSE x \in bad0 : TRUE IN <<"Exposure", Status(g, L, b[1]) \o "-address-empty-calldata-in-mode-" \o g.modes[b[2]]>>
+    ELSE OK
 
 ProbeCounts(g, e, L, f) ==
   IF "noprobe" \in DOMAIN e THEN f
-  ELSE LET n == IF e.full THEN 16 ELSE 1
+  ELSE LET n == IF e.full THEN 28 ELSE 1
            cnt(st) == n * Cardinality({a \in ToSet(g.cands) : Status(g, L, a) = st})
-       IN BumpN(BumpN(BumpN(BumpN(f, "probe.runs", cnt("runs")), "probe.refused", cnt("refused")), "probe.absent", cnt("absent")), "probe.std", cnt("std"))
+           nreg == Cardinality(DOMAIN L.meta)
+           f1 == BumpN(BumpN(BumpN(BumpN(f, "probe.runs", cnt("runs")), "probe.refused", cnt("refused")), "probe.absent", cnt("absent")), "probe.std", cnt("std"))
+       IN BumpN(f1, "probe.registered-toplevel-empty-calldata", (IF e.full THEN 9 ELSE 6) * nreg)   \* e0 (6 modes) [+ e1 (3 modes)] per registered contract
 
 (***************************************************************************)
 (* lines                                                                   *)
